@@ -355,6 +355,8 @@ class BootLog(object):
         self.events = []        # ("send", socket index, data) in order
         self.readings = []      # clock readings
         self.sleeps = []
+        self.fail_at = None     # the send attempt that reports a stale
+        self.attempts = 0       # "connection refused" (nothing goes out)
 
 
 class RecSocket(object):
@@ -371,6 +373,11 @@ class RecSocket(object):
         self.peer = addr
 
     def _record(self, data, addr):
+        n = self.log.attempts
+        self.log.attempts = n + 1
+        if n == self.log.fail_at:
+            import errno
+            raise OSError(errno.ECONNREFUSED, "Connection refused")
         if self.closed:
             self.sent_after_close = True
         self.log.events.append((self.index, data, addr))
@@ -503,13 +510,15 @@ class Env(object):
     pass
 
 
-def _do_boot(ctx, env, image, optset, mode, tag, port, via_mc=False):
+def _do_boot(ctx, env, image, optset, mode, tag, port, via_mc=False,
+             fail_at=None):
     """Call the real boot() once.  Returns a record."""
     bootmod = env.bootmod
     layout = env.layout
     rec = Env()
     rec.tag = tag
     rec.log = env.world.log = BootLog()
+    rec.log.fail_at = fail_at
     rec.image = image
     rec.port = port
     rec.host = "board-%s" % tag
@@ -856,8 +865,10 @@ def h_history(ctx, boots, seed, struct_variant=None, via_mc=False,
             image = ctx.pick(menu["images"])
             optset = ctx.pick(menu["optsets"])
             mode = ctx.pick(menu["modes"])
+            fail_at = (ctx.pick(menu["send_fault"])
+                       if menu.get("send_fault") else None)
             rec = _do_boot(ctx, env, image, optset, mode, tag, 50000 + i,
-                           via_mc=via_mc)
+                           via_mc=via_mc, fail_at=fail_at)
             if image is None:
                 rec.image_bytes = bundled_image
             elif image == symbolic_image:
@@ -998,6 +1009,15 @@ def units(tier, seed):
         [menu([1028], [NONE] + presets + singles + pairs, MODES3)],
         wit=("booted", "symbolic-option", "caller-dict",
              "short-last-block"), split=2)
+    # the socket reports a stale "connection refused" on one send (which
+    # then transmits nothing): boot() may raise, but a boot() that returns
+    # is held to the whole property; the next boot of the history is an
+    # ordinary one
+    add("one boot: a send reports connection refused, then an ordinary boot",
+        [menu([1028, 512], [NONE, (("sym", "led0"),)],
+              send_fault=(0, 1, 2, 3), expect_error="network"),
+         menu([512], [NONE])],
+        wit=("booted", "rejected"), split=2)
     add("one boot: synthetic struct file",
         [menu([1028, 512],
               [NONE, (("sym", "first"),), (("sym", "odd_half"),),
